@@ -51,12 +51,23 @@ func WithDebug(f func(format string, arg ...any)) Option {
 func NewConn(ctx context.Context, conn net.Conn, options ...Option) (outConn *Conn, err error) {
 	defer func() { convertErrorsToAlerts(conn, err) }()
 	done := make(chan struct{})
-	defer close(done)
+	exited := make(chan struct{})
+	var expired bool
 	go func() {
+		defer close(exited)
 		select {
 		case <-done:
 		case <-ctx.Done():
 			conn.SetDeadline(time.Now())
+			expired = true
+		}
+	}()
+	defer func() {
+		// The ctx must not affect the connection after NewConn returns.
+		close(done)
+		<-exited
+		if expired && err == nil {
+			conn.SetDeadline(time.Time{})
 		}
 	}()
 	record, err := readRecord(conn)
